@@ -110,6 +110,31 @@ def unary_chain_ts(rng, ts):
     return tables.tree_sequence()
 
 
+def add_root_mutations(rng, ts, k=None):
+    """add k mutations ABOVE THE ROOT of the local tree (on the root node, i.e. on no edge) at fresh
+    integer positions; valid tskit input that simulators never produce"""
+    import tskit
+    k = k if k is not None else rng.randint(1, 3)
+    used = set(float(x) for x in ts.sites_position)
+    free = [x for x in range(int(ts.sequence_length)) if float(x) not in used]
+    rng.shuffle(free)
+    tables = ts.dump_tables()
+    added = 0
+    for x in free:
+        tree = ts.at(float(x))
+        if tree.num_roots != 1 or tree.num_edges == 0:
+            continue
+        s = tables.sites.add_row(position=float(x), ancestral_state="0")
+        tables.mutations.add_row(site=s, node=tree.root, derived_state="1", time=tskit.UNKNOWN_TIME)
+        added += 1
+        if added >= k:
+            break
+    tables.sort()
+    tables.build_index()
+    tables.compute_mutation_parents()
+    return tables.tree_sequence()
+
+
 def random_times(rng, ts, style=None):
     """arbitrary 'unconstrained' time vector for the nodes of ts"""
     n = ts.num_nodes
